@@ -149,6 +149,13 @@ def gen_history(rng, idx, base, p_expr=0.12):
         if rng.random() < 0.15:
             t = rng.choice(tasks)
             faults[str(t["id"])] = rng.choice(["raise_before", "raise_after"])
+        elif rng.random() < 0.08:
+            # a producer of a pattern that leaves one of its ordinary products out: it fails in the teardown, after
+            # its function has written the files of the pattern (F34, repaired: its consumers used to run)
+            cand = [t for t in tasks if t["pprods"] and t["prods"]]
+            if cand:
+                t = rng.choice(cand)
+                faults[str(t["id"])] = {"omit": [t["prods"][0]]}
         ops.append({"op": "build", "tasks": [dict(t) for t in tasks], "cfg": cfg, "faults": faults})
     return {"idx": idx, "root": str(Path(base) / f"c{idx}" / "p"), "ops": ops, "sources": sources}
 
